@@ -75,6 +75,8 @@ func C01(c *core.Ctx) {
 	c.Floor("families", c.Counts["members"], 1000, "family members × option sets")
 	// B-ERR instance: format.Source in Sources
 	a := engb.New(c.Prog)
+	// the default output is standard output: nothing but the generated source may be written to it
+	emit(c, a.StdoutCarriesOnlyCode())
 	ruleBErr(c, a, func(s *engb.ErrSite) bool { return s.Callee == "go/format.Source" })
 	ruleImportSet(c)
 	// identifiers: what Identifierize makes of every class of text is a valid Go identifier (shared with C14)
